@@ -22,6 +22,26 @@ CLAIMED = {
         design='5/C01'),
 }
 
+CLAIMED['C18'] = dict(
+    text='All 65536 status codes are one symbolic integer; for each of the 23 message classes and for no class the real '
+         'Status.__init__/__int__ are executed over every path (the two registration dicts are presented to the solver as '
+         'interval tables derived from the real dicts) and compared with an interval oracle transcribed from PS3.7/PS3.4: '
+         'exactly one class flag, consistent with status_type, service-specific ranges first, unknown = failure, '
+         'int(Status(v)) == v. Exhaustive over codes by solver reasoning, not enumeration.',
+    note=TRUSTED + 'IntervalTable stand-in for the registration dicts (boundary-checked against the real dicts on every '
+         'run); general warning codes of Annex C accepted as Warning or Failure.',
+    design='5/C18')
+
+CLAIMED['C04'] = dict(
+    text='Every cell of PS3.8 Table 9-10: event fixed per instance, protocol state symbolic over all 13 states, role, ARTIM '
+         'pre-state, stale-primitive choice and PDU field bytes symbolic; the real StateMachine.action and action methods '
+         'run on a real (un-started) provider with recording socket/timer/queue and are compared cell by cell with a '
+         'transcription of the standard (wire, indication, close, timer, next state; no effect at all in the 124 '
+         'undefined cells). All 19 conditions confirmed over all paths.',
+    note=TRUSTED + 'Recording stand-ins of vt/sim.py for socket/timer/queue; the triggering PDU of each event is one '
+         'representative of its type with symbolic field bytes.',
+    design='5/C04')
+
 NOT_YET = 'check not built yet in this revision (see DESIGN.md section 5 for the plan)'
 
 NOT_APPLICABLE = {}
